@@ -751,3 +751,16 @@ M("C07-colon-above-question", "C07", "src/cppparser/cppBison.yxx",
 M("C07-benign-colon-between", "C07", "src/cppparser/cppBison.yxx",
   "%right ':'\n%right '='\n%right '?'\n", "%right '='\n%right ':'\n%right '?'\n",
   benign=True)
+
+M("C16-break-first-pending-edge", "C16", "src/interrogate/interrogate_module.cxx",
+  "        dependencies[cycle[0]].erase(cycle[1]);", "        deps.erase(deps.begin());",
+  expect="R16.2|erase#1|edge-of-the-reported-cycle")
+M("C16-break-reverse-edge", "C16", "src/interrogate/interrogate_module.cxx",
+  "        dependencies[cycle[0]].erase(cycle[1]);", "        dependencies[cycle[1]].erase(cycle[0]);",
+  expect="R16.2|erase#1|edge-of-the-reported-cycle")
+M("C16-benign-break-edge-front", "C16", "src/interrogate/interrogate_module.cxx",
+  "        dependencies[cycle[0]].erase(cycle[1]);", "        dependencies[cycle.front()].erase(cycle.at(1));",
+  benign=True)
+M("C16-benign-break-last-edge", "C16", "src/interrogate/interrogate_module.cxx",
+  "        dependencies[cycle[0]].erase(cycle[1]);", "        dependencies[cycle[cycle.size() - 2]].erase(cycle.back());",
+  benign=True)
